@@ -6,7 +6,7 @@
      rawdn   input (#dn parsed name)            impl (0 #text) | (2)       FromRawDN
      cert    input (acc (#dn parsed name) (#dn parsed name))
                                                  impl (0 (#subject #issuer)) | (1)   file.Inspect
-   rdns   = ((atv ...) ...)   atv = ((arc ...) value)
+   rdns   = ((atv ...) ...)   atv = ((arc ...) value)   arc = decimal | #big-endian bytes (>= 2^62)
    value  = (0 #s) string | (1 #be8) int64, two's complement | (2) nil | (4 #printed #marshal) other
    parsed = (0 rdns) | (1): what the library decoding used by FromRawDN returned (oracle)
    name   = (0 ((((arc ...) kind #payload) ...) ...)) | (1): the name as decoded by the harness
@@ -26,7 +26,9 @@ Definition value_of_arg (a : arg) : govalue :=
   | 2%Z => GNil
   | _ => GOther (arg_bytes (arg_nth 1 a)) (arg_bytes (arg_nth 2 a))
   end.
-Definition oid_of_arg (a : arg) : oid := map arg_N (arg_list a).
+(* an arc is a decimal integer, or big-endian bytes when it does not fit the driver's integers *)
+Definition arc_of_arg (a : arg) : N := match a with AB b => be_to_N b | _ => arg_N a end.
+Definition oid_of_arg (a : arg) : oid := map arc_of_arg (arg_list a).
 Definition atv_of_arg (a : arg) : atv := (oid_of_arg (arg_nth 0 a), value_of_arg (arg_nth 1 a)).
 Definition rdns_of_arg (a : arg) : list (list atv) :=
   map (fun r => map atv_of_arg (arg_list r)) (arg_list a).
